@@ -272,6 +272,9 @@ class C15(Engine):
                     if int(mr.group(1)) != int(mr.group(2)):
                         res.viol("%s:sigint-not-obeyed-within-one-instruction" % cpu, usleeps=mr.group(1), sig_at=mr.group(2))
                 continue
+            md = re.search(r"@@DISASM pc=([0-9a-f]+) count=(-?\d+) text=(.*)", vb)
+            if md and ret == 0 and kind == 0:
+                self.length_clause(res, cpu, int(md.group(1), 16), int(md.group(2)), md.group(3).strip().lower(), m.group(7), case)
             if ret == 0:
                 res.probe("executed")
             elif ret == -1:
@@ -311,6 +314,32 @@ class C15(Engine):
             v["cases"] = plan["cases"][:2] + ["... %d more cases" % max(len(plan["cases"]) - 2, 0)]
             return trim(v, 120)
         return trim(plan, 400)
+
+    # mnemonics that legitimately leave the sequential path (per listing text)
+    BRANCHY = {"6502": ("bcc", "bcs", "beq", "bmi", "bne", "bpl", "bvc", "bvs", "jmp", "jsr", "rts", "rti", "brk", "bra"),
+               "65816": ("bcc", "bcs", "beq", "bmi", "bne", "bpl", "bvc", "bvs", "jmp", "jsr", "rts", "rti", "brk", "bra", "brl", "jml", "jsl",
+                         "rtl", "cop", "wai", "stp"),
+               "z80": ("jp", "jr", "call", "ret", "reti", "retn", "rst", "djnz", "halt")}
+    PCRE = {"6502": r"PC=0x([0-9a-f]+)", "65816": r"PC=0x([0-9a-f]+)", "z80": r"PC: ([0-9a-f]+)"}
+
+    def length_clause(self, res, cpu, pc0, count, text, post_dump, case):
+        """Where the simulator relies on the disassembler for instruction length, the PC after a
+        non-branching instruction is the address of the next listed instruction."""
+        mn = text.split(" ")[0] if text else "?"
+        if count <= 0 or not text or "?" in mn or mn in self.BRANCHY[cpu] or "offset=" in text:
+            return
+        mp = re.search(self.PCRE[cpu], post_dump)
+        if not mp:
+            res.unparsed += 1
+            return
+        pc1 = int(mp.group(1), 16)
+        mask = 0xffffff if cpu == "65816" else 0xffff
+        res.probe("length_clause_checked:" + cpu)
+        if pc1 == pc0:
+            return          # nothing was executed (the simulator stops at opcodes it does not implement)
+        if pc1 != pc0 + count and pc1 != ((pc0 + count) & mask) and pc1 != ((pc0 + count) & 0xffff):
+            res.viol("%s:pc-after-step-is-not-the-next-listed-instruction" % cpu, text=text, pc=hex(pc0), listed_length=count, pc_after=hex(pc1),
+                     case=trim(case, 120))
 
     def shrink(self, plan):
         cases = plan["cases"]
